@@ -1089,6 +1089,17 @@ class awkward_transform:
                     # if the function returns a single array, wrap it in a tuple
                     if not isinstance(out_numpys, tuple):
                         out_numpys = (out_numpys,)
+                    # a coordinate of a single (non-Awkward) vector that is passed through
+                    # unchanged arrives here as a scalar: broadcast it to the leaf length
+                    nplike = layouts[0].backend.nplike
+                    out_numpys = tuple(
+                        x
+                        if len(getattr(x, "shape", ())) > 0
+                        else nplike.broadcast_to(
+                            nplike.asarray(x), layouts[0].data.shape
+                        )
+                        for x in out_numpys
+                    )
                     # propagate parameters
                     out_params = parameters_factory(
                         tuple(map(operator.attrgetter("parameters"), layouts)),
